@@ -580,6 +580,7 @@ func (st *runState) checkDocument(r *reqRec, add func(p, oracle, sig, detail str
 		}
 		n := 0
 		ids := map[string]int{}
+		names := map[string]int{}
 		rss, _ := m["resourceSpans"].([]any)
 		for _, rs := range rss {
 			rsm, _ := rs.(map[string]any)
@@ -592,9 +593,18 @@ func (st *runState) checkDocument(r *reqRec, add func(p, oracle, sig, detail str
 						n++
 						if spm, ok := sp.(map[string]any); ok {
 							ids[fmt.Sprint(spm["spanId"])]++
+							names[fmt.Sprint(spm["name"])]++
 						}
 					}
 				}
+			}
+		}
+		for i := 0; i < data[0].Served && n == data[0].Served; i++ {
+			// the stored spans are named op0, op1, ...: each of them is in the document under its own name
+			if names[fmt.Sprintf("op%d", i)] != 1 {
+				add("C15", "span-altered", "a stored span is missing from the trace document or rendered under another name: "+rq.Kind,
+					fmt.Sprintf("req%d %s: span op%d occurs %d times among the %d spans of the document", r.ID, r.Path, i, names[fmt.Sprintf("op%d", i)], n))
+				break
 			}
 		}
 		if n != data[0].Served {
